@@ -76,8 +76,21 @@ def cases(tier):
     return cs
 
 
+def with_stateless(cs, tier):
+    """every configuration is explored twice: snapshot BFS (deep horizon, state merging) and stateless DFS (each execution one
+    uninterrupted run() call, first choice points enumerated exhaustively) - the latter sees driver state carried across iterations"""
+    out = list(cs)
+    for c in cs:
+        if any(x.get("fixed") for x in c["comps"]):
+            continue
+        m = max(len(x.get("menu", [1])) for x in c["comps"] if x["kind"] == "T")
+        d = (5 if m >= 3 else 7) + (0 if tier == "quick" else 2)
+        out.append(dict(c, stateless=d))
+    return out
+
+
 def run(tier, seed, agg):
-    acheck.run_cases(cases(tier), CLAUSES, agg, judge, seed)
+    acheck.run_cases(with_stateless(cases(tier), tier), CLAUSES, agg, judge, seed)
     return dict(
         level="model_checking",
         rule="explicit-state BFS over the real Composition.run; every next_time is an environment choice from the step menu; "
